@@ -1228,8 +1228,8 @@ class ImageProperty(Property):
         if res["status"] not in ("ok", "corr") or impl.get("outcome") != "ok":
             return res
         # a broken correspondence makes every case worth a link: look for a concrete failing image
-        if not (c.get("link") or res["status"] == "corr"):
-            return res
+        if not (c.get("link") or res["status"] == "corr") or c["mode"] == "partial":
+            return res      # (two-step links are C11's business)
         out = link_and_check(self, w, c, impl)
         if res["status"] == "corr" and out.get("status") is None:
             out.pop("why", None)
@@ -1252,6 +1252,15 @@ def link_and_check(spec, w, c, impl):
             return {"linked": "link-failed", "link_log": L.log[-300:]}
         bad, kf = spec.image_checks(L, info, c)
         out = {"linked": "ok"}
+        if not impl.get("partials"):
+            fid = image.ldsem_fidelity(L, info, w.d, impl["script"])
+            if fid is None:
+                out["ldsem"] = "outside"
+            else:
+                out["ldsem"] = "agree" if not fid[1] else "differ"
+                out["ldsem_compared"] = fid[0]
+                if fid[1]:
+                    out["ldsem_diff"] = fid[1][:5]
         if bad:
             out.update(status="violation", why="linked image (GNU ld): " + "; ".join(bad[:3]), image_failures=bad[:10])
         elif kf:
